@@ -2377,6 +2377,11 @@ class SFTPGlob:
             if filename in (b'.', b'..'):
                 continue
 
+            if not filename or b'/' in filename:
+                # A name from a directory listing can only ever
+                # refer to something inside of that directory
+                continue
+
             if not pattern or fnmatch(filename, pattern):
                 newpath = posixpath.join(path, filename)
                 attrs = entry.attrs
